@@ -14,6 +14,9 @@ DEFAULT = dict(
     p_manual_ctx=0.0, # contexts entered and left by explicit __enter__/__exit__ calls, in non-nested order
     p_via_cancel=0.0, # a flush body that fails does so by cancelling its own batch and returning normally
     p_base_err=0.0,   # params.base_errors: every third fault id is a BaseException that is not an Exception
+    p_diamond=0.0,    # a stored handle of a task that holds a context across a suspension, awaited by 2-3 sibling tasks, each from
+                      # inside a context block of its own and after a different number of suspensions (a DAG: the shared task is
+                      # started under one awaiter and continued / completed under another)
     p_vary_bad=0.0,   # params.vary_bad: non-future leaves cycle through 12345, 0, '', False, 0.0, b'', 'abc'      # a yield of a container of stored handles whose very same container object is yielded a second time
 )
 
@@ -120,11 +123,101 @@ class Gen:
             return {"var": pick[0]}
         return {self.r.choice(["tuple", "list"]): [{"var": v} for v in pick]}
 
+    def ctx_on(self, var):
+        """a context block for the shared-handle scenarios: mostly an override of the given variable"""
+        cx = self.ctx()
+        if "override" in cx and self.r.random() < 0.75:
+            cx["override"][1] = var
+        return cx
+
+    def item_yield(self, vals):
+        x = self.fx()
+        st = {"op": "yield", "x": x, "s": {"new": {"item": [self.r.randrange(self.c["nkinds"]), self.r.randrange(self.c["nkeys"]), self.act()]}}}
+        vals.append(x)
+        return st
+
+    def diamond(self, depth, vals, hands, bd):
+        """let h = <task holding a context over >= 1 suspension>; yield (<task: with ctx: [suspensions]; yield h; read>, ...)"""
+        r = self.r
+        var = r.randrange(self.c["nvars"])
+        out = []
+        # the shared task
+        svals, shands = list(vals), list(hands)
+        inner = [self.item_yield(svals) for _ in range(r.choice([1, 1, 1, 2]))]
+        if r.random() < 0.7:
+            x = self.fx()
+            inner.append({"op": "read", "x": x, "var": var})
+            svals.append(x)
+        if r.random() < 0.3:
+            inner += self.block(depth + 1, svals, shands, 1, False, 1)
+        sbody = []
+        if r.random() < 0.2:
+            sbody.append(self.item_yield(svals))
+        sbody.append({"op": "with", "c": self.ctx_on(var), "body": inner})
+        if r.random() < 0.4:
+            x = self.fx()
+            sbody.append({"op": "read", "x": x, "var": var})
+            svals.append(x)
+        sbody.append({"op": "return", "e": self.retexpr(svals)})
+        h = self.fh()
+        out.append({"op": "let", "h": h, "f": {"task": sbody}})
+        hands.append(h)
+        # the tasks awaiting it
+        leaves = []
+        for _ in range(r.choice([2, 2, 2, 3])):
+            avals, ahands = list(vals), list(hands)
+            pre = [self.item_yield(avals) for _ in range(r.choice([0, 0, 1, 1, 2]))]
+            x = self.fx()
+            if r.random() < 0.1:
+                wait = [{"op": "sync", "x": x, "h": h}]
+            elif r.random() < 0.25:
+                wait = [{"op": "yield", "x": x, "s": {r.choice(["tuple", "list"]): [{"old": h}, {"new": self.fexpr(depth + 1, avals, ahands)}]}}]
+            else:
+                wait = [{"op": "yield", "x": x, "s": {"old": h}}]
+            avals.append(x)
+            post = []
+            if r.random() < 0.9:
+                x = self.fx()
+                post.append({"op": "read", "x": x, "var": var})
+                avals.append(x)
+            if r.random() < 0.2:
+                post.append(self.item_yield(avals))
+                x = self.fx()
+                post.append({"op": "read", "x": x, "var": var})
+                avals.append(x)
+            if r.random() < 0.85:
+                k = r.randrange(0, len(pre) + 1)        # suspensions before the block / inside it
+                abody = pre[:k] + [{"op": "with", "c": self.ctx_on(var), "body": pre[k:] + wait + post}]
+            else:
+                abody = pre + wait + post
+            if r.random() < 0.3:
+                x = self.fx()
+                abody.append({"op": "read", "x": x, "var": var})
+                avals.append(x)
+            abody.append({"op": "return", "e": self.retexpr(avals)})
+            leaves.append({"new": {"task": abody}})
+        if r.random() < 0.15:
+            leaves.insert(r.randrange(0, len(leaves) + 1), {"old": h})
+        x = self.fx()
+        y = [{"op": "yield", "x": x, "s": {r.choice(["tuple", "list"]): leaves}}]
+        x2 = self.fx()
+        y.append({"op": "read", "x": x2, "var": var})
+        if bd < 3 and r.random() < 0.6:
+            out.append({"op": "with", "c": self.ctx_on(var), "body": y})
+        else:
+            out.extend(y)
+        vals.extend([x, x2])
+        return out
+
     def block(self, depth, vals, hands, n, terminal, bd=0):
         c = self.c
         out = []
         manual = []         # contexts opened by explicit __enter__ in this block, in entry order
         for _ in range(n):
+            if c["p_diamond"] > 0 and depth + 1 < c["max_depth"] and self.budget >= 4 and self.r.random() < c["p_diamond"]:
+                self.budget -= 4
+                out.extend(self.diamond(depth, vals, hands, bd))
+                continue
             if c["p_manual_ctx"] > 0 and len(manual) < 3 and self.r.random() < c["p_manual_ctx"]:
                 self.ncid += 1
                 m = {"v": "m%d" % self.ncid, "c": {"async": [self.ncid, None]}}
@@ -275,7 +368,9 @@ class Gen:
 # ------------------------------------------------------------------ statistics over an AST
 def stats(case):
     s = dict(tasks=0, items=0, yields=0, syncs=0, withs=0, tries=0, raises=0, depth=0, old=0, dicts=0, nested=0,
-             item_faults=0, bad=0, lazy=0, errfut=0, reads=0, nonasync=0, ctx_faults=0, overrides=0, kinds=set())
+             item_faults=0, bad=0, lazy=0, errfut=0, reads=0, nonasync=0, ctx_faults=0, overrides=0, kinds=set(), shared=0)
+    uses = {}           # handle -> set of task bodies (by identity) that await it
+    cur_body = [None]
 
     def fe(f, d):
         if "task" in f:
@@ -300,6 +395,7 @@ def stats(case):
             fe(y["new"], d)
         elif "old" in y:
             s["old"] += 1
+            uses.setdefault(y["old"], set()).add(cur_body[0])
         else:
             if nest >= 1:
                 s["nested"] += 1
@@ -314,7 +410,10 @@ def stats(case):
     def body(b, d):
         s["tasks"] += 1
         s["depth"] = max(s["depth"], d)
+        saved = cur_body[0]
+        cur_body[0] = id(b)
         block(b, d)
+        cur_body[0] = saved
 
     def block(b, d):
         for x in b:
@@ -326,6 +425,7 @@ def stats(case):
                 fe(x["f"], d)
             elif op == "sync":
                 s["syncs"] += 1
+                uses.setdefault(x["h"], set()).add(cur_body[0])
             elif op == "with":
                 s["withs"] += 1
                 c = x["c"]
@@ -347,4 +447,5 @@ def stats(case):
     for r in case["roots"]:
         body(r, 0)
     s["kinds"] = len(s["kinds"])
+    s["shared"] = sum(1 for h, bs in uses.items() if len(bs) >= 2)      # stored handles awaited by >= 2 different tasks
     return s
